@@ -82,6 +82,8 @@ def bfs_item(item, acc):
                 continue
             if ev[0] == "combine" and st.cp.b.combine_stderr:
                 continue
+            if ev[0] == "ext" and st.remaining == 0:
+                continue
             nxt = chanflow.build(cfg, hist + [ev])
             n_trans += 1
             acc.ev()
